@@ -406,6 +406,8 @@ SHAPES = [
      r"if \(current_object->interactive\)" + WS + r"\{" + WS + r"check_legal_string \(sp->u.string\);" + WS
      + r"add_message \(current_object, sp->u.string\);", 1),
     ("tell_object.interactive", "lib/lpc/object.c", None, r"if \(ob->interactive\)" + WS + r"add_message \(ob, str\);", 1),
+    ("add_vmessage.format", "src/comm.c", "addv",
+     r"va_start \(args, format\);" + WS + r"#ifdef _GNU_SOURCE" + WS + r"ret = vasprintf \(&str, format, args\);" + WS + r"#else", 1),
     ("socket_comm.send-macro", "lib/port/socket_comm.h", None, r"#define SOCKET_SEND\(s, b, l, f\)\s+send\(s, b, l, f\)", 1),
     ("socket_comm.errno-macro", "lib/port/socket_comm.h", None, r"#define SOCKET_ERRNO\s+errno", 1),
 ]
@@ -415,6 +417,20 @@ HEADERS = {
     "add": (r"\nvoid add_message \(object_t \* who, char \*data\) \{", "add_message"),
     "addv": (r"\nvoid add_vmessage \(object_t \* who, char \*format, \.\.\.\) \{", "add_vmessage"),
 }
+
+
+def local_buffers(src):
+    """fixed-size local arrays of add_message / add_vmessage / flush_message (a formatting or staging buffer): their sizes aim
+    the length sweep of the generators.  [(function, name, size expression)]"""
+    out = []
+    for key in ("add", "addv", "flush"):
+        try:
+            body = func_body(src, HEADERS[key][0], HEADERS[key][1])
+        except X.TieBroken:
+            continue
+        for m in re.finditer(r"\b(?:unsigned\s+|signed\s+|const\s+)*(?:char|UCHAR|BYTE|unsigned char)\s+(\w+)\s*\[([^\]]+)\]", body):
+            out.append((HEADERS[key][1], m.group(1), m.group(2).strip()))
+    return out
 
 
 def shape_checks(read):
